@@ -661,8 +661,24 @@ def context_cases():
     return [Case(f"{PROP}/solve.SolvingContext#per-context-state", "two contexts, one shut down", harness, replay=replay_script("shared_executor_between_tests.py", "check_A() fails under --early-exit, then check_B() of the same contract"), sources=("halmos.solve:SolvingContext",))]
 
 
+def query_file_cases():
+    """the answer recorded for a path is the answer to ITS query: dump() writes the file also when one of that name exists (C11's unit)"""
+    from contracts import c11
+    from contracts.common import rewrap
+
+    return rewrap(PROP, c11.dump_cases(), "answer-is-for-this-path")
+
+
+def setup_selection_ref():
+    """the choice of the post-setUp state does not depend on solver timing: a timed-out query keeps its path (C10's unit)"""
+    from contracts import c10
+    from contracts.common import rewrap
+
+    return rewrap(PROP, c10.setup_selection_cases(), "timeout-keeps-the-path")
+
+
 def build_cases(tier="quick"):
-    return verdict_cases() + from_result_cases() + timeout_cases() + classification_cases() + callback_cases() + exit_code_cases() + join_cases() + context_cases()
+    return setup_selection_ref() + query_file_cases() + verdict_cases() + from_result_cases() + timeout_cases() + classification_cases() + callback_cases() + exit_code_cases() + join_cases() + context_cases()
 
 
 def grounds():
